@@ -68,8 +68,87 @@ def cases(rng, tier):
     return out
 
 
+PAR_OPS = ['add16', 'asx', 'sax', 'sub16', 'add8', 'sub8']
+PAR_KINDS = [('S', 'true', 0), ('Q', 'true', 1), ('Sh', 'true', 2), ('U', 'false', 0), ('Uq', 'false', 1), ('Uh', 'false', 2)]
+FAMILY = ['Mla', 'Mls', 'Umull', 'Umlal', 'Umaal', 'Smull', 'Smlal', 'Smla', 'Smul', 'Smlalxy', 'Smlaw', 'Smulw', 'Smlad', 'Smlsd',
+          'Smuad', 'Smusd', 'Smlald', 'Smlsld', 'Smmla', 'Smmls', 'Smmul', 'Sdiv', 'Udiv', 'Qsub', 'Qdadd', 'Qdsub', 'Ssat', 'Usat',
+          'Ssat16', 'Usat16', 'Usad8', 'Usada8', 'Sxtb', 'Sxth', 'Uxtb', 'Uxth', 'Sxtb16', 'Uxtb16', 'Sxtab', 'Sxtah', 'Uxtab', 'Uxtah',
+          'Sxtab16', 'Uxtab16', 'Pkh', 'Rev', 'Rev16', 'Revsh', 'Rbit', 'Bfc', 'Sbfx']
+LANE = [0, 1, 0x7F, 0x80, 0xFF, 0x7FFF, 0x8000, 0xFFFF, 0x7F7F7F7F, 0x80808080, 0xFFFFFFFF, 0x7FFF7FFF, 0x80008000, 0x00FF00FF,
+        0xFF00FF00, 0x0001FFFF, 0xFFFF0001, 0x7FFFFFFF, 0x80000000, 0x00010000]
+
+
+def family_cases(rng, tier):
+    """the rest of the family against the executable specifications of Spec/Arith2.v (no theorem)"""
+    t = statelib.load_index(C.GEN)['tables']
+    oc = t['opcode_classes']
+    out = []
+    per = 12 if tier == 'quick' else 600
+    classes = [(c, c + '_sem') for c in FAMILY]
+    for pf, sg, kind in PAR_KINDS:
+        for i, o in enumerate(PAR_OPS):
+            c = pf + o
+            c = c[0].upper() + c[1:]
+            classes.append((c, f'par {sg} {kind} {i}'))
+    for cls, sem in classes:
+        names = oc[cls]['fields'][1:]
+        for _ in range(per):
+            cfgd, st = mk(rng, t)
+            regs = rng.sample(range(13), 6)
+            vals = {}
+            ri = 0
+            for f in names:
+                if f in ('m', 'd', 'n', 'a', 'd_hi', 'd_lo'):
+                    vals[f] = regs[ri]
+                    ri += 1
+                    set_reg(st, t, vals[f], rng.choice(LANE) if rng.random() < 0.7 else rng.getrandbits(32))
+                elif f in ('setflags', 'm_high', 'n_high', 'm_swap', 'round_', 'tb_form'):
+                    vals[f] = rng.getrandbits(1)
+                elif f == 'rotation':
+                    vals[f] = rng.choice([0, 8, 16, 24])
+                elif f == 'saturate_to':
+                    vals[f] = {'Ssat': rng.randrange(1, 33), 'Usat': rng.randrange(0, 32), 'Ssat16': rng.randrange(1, 17),
+                               'Usat16': rng.randrange(0, 16)}[cls]
+                elif f == 'lsbit':
+                    vals[f] = rng.randrange(32)
+                elif f == 'msbit':
+                    vals[f] = rng.randrange(vals['lsbit'], 32)
+                elif f == 'widthminus1':
+                    vals[f] = rng.randrange(32 - vals['lsbit'])
+                elif f == 'shift_t':
+                    asr = vals.get('tb_form', rng.getrandbits(1))
+                    vals[f] = 3 if asr else 1
+                    vals['shift_n'] = rng.randrange(1, 33) if asr else rng.randrange(0, 32)
+                elif f == 'shift_n':
+                    pass
+                else:
+                    raise RuntimeError(f'C09 family: unknown field {f} of {cls}')
+            if cls in ('Sdiv', 'Udiv') and rng.random() < 0.3:
+                set_reg(st, t, vals['m'], rng.choice([0, 0xFFFFFFFF, 1]))
+                set_reg(st, t, vals['n'], rng.choice([0x80000000, 0xFFFFFFFF, 7, 0x7FFFFFFF]))
+            if cls in ('Smlad', 'Smuad', 'Smlsd', 'Smla', 'Smlaw') and rng.random() < 0.4:
+                set_reg(st, t, vals['n'], 0x80008000)
+                set_reg(st, t, vals['m'], 0x80008000)
+                if 'a' in vals:
+                    set_reg(st, t, vals['a'], rng.choice([0, 0x7FFFFFFF, 0x80000000, 0xFFFFFFFF, 1]))
+            fields = []
+            for f in names:
+                v = vals[f]
+                fields.append(['enum', 'shift', 'SRType', v] if f == 'shift_t' else v)
+            cfg = statelib.coq_config(cfgd, t)
+            m = statelib.coq_machine(st)
+            args = ' '.join(str(vals[f]) for f in names)
+            arch = cfgd['arch_version']
+            out.append({'impl': {'kind': 'exec', 'state': st, 'module': cls.lower(), 'cls': cls, 'fields': [0] + fields},
+                        'model': f'(enc_out enc_machine enc_unit ({cls}_execute {cfg} 0 {args} {m}))',
+                        'spec': f'(enc_out enc_machine enc_unit (Ok tt ({sem} {arch} {m} {args})))', 'label': 'family_' + cls,
+                        'nontrivial': True})
+    return out
+
+
 def units():
     thms = ['C09_MUL', 'C09_QADD', 'C09_UBFX', 'C09_CLZ', 'C09_SEL', 'C09_BFI_actual', 'C09_BFI_refuted']
     needs = ['opcodes.abstract_opcodes.%s.%s.execute' % (m, c) for (m, c) in
              (('mul', 'Mul'), ('qadd', 'Qadd'), ('ubfx', 'Ubfx'), ('clz', 'Clz'), ('sel', 'Sel'), ('bfi', 'Bfi'))]
-    return [Unit('arith', thms, ['Proofs/ArithProofs.v'], needs, cases, IMPORTS, SPEC_IMPORTS)]
+    return [Unit('arith', thms, ['Proofs/ArithProofs.v'], needs, cases, IMPORTS, SPEC_IMPORTS),
+            Unit('family', [], [], [], family_cases, IMPORTS, SPEC_IMPORTS + '\nFrom ArmV Require Import Spec.Arith2.')]
